@@ -24,6 +24,11 @@ arrays bitwise.  Tolerances are running noise floors: every model quantity carri
 ``K * eps_t * (sum of |terms|)`` that is propagated through the same recurrences (including the
 conditioning of the delta weights w.r.t. the rounding of (x_grid - X)/dx).
 
+Workload diversity (added after the seeded-change campaign): the last three histories of every shard run two histories on
+the OTHER dx of the same dimension (2-D: with a body of the same marker count, 12) and then one on the shard's own dx again
+(sibling objects in one process: caches keyed without dx); the interaction constructor is called in three ways (all
+arguments explicit / documented defaults left out / the optional shift and kernel width given explicitly).
+
 Soundness notes (measured on the unchanged tree, seeds 0..5 quick + 0,1 thorough, both precisions): every
 err/tol ratio stays <= 0.07 (headroom >= 14x).  Three things had to be modelled to get there, none of them a
 defect: (1) PyElastica stores element lengths as |dx| + 1e-14, so the rod grids report s_max 3e-13 (relative)
@@ -99,6 +104,10 @@ REQUIRE = {
     "flow_overwrites": 10,
     "bitwise_snapshots_flow": 500,
     "bitwise_snapshots_body": 500,
+    "histories_other_dx_same_process": 16,
+    "histories_own_dx_after_other_dx": 8,
+    "ctor_with_defaults_left_out": 20,
+    "ctor_with_explicit_shift_and_width": 20,
     "grid_cyl2d": 3, "grid_nodal": 3, "grid_elem": 3, "grid_edge": 3, "grid_sphere": 3, "grid_surface": 3,
 }
 K = 16.0
@@ -387,7 +396,7 @@ def _gen_u(rng, shape, d, real_t, scale):
     return np.ascontiguousarray(u.astype(real_t))
 
 
-def run_history(rec, rng, sh, hidx, length):
+def run_history(rec, rng, sh, hidx, length, force=None):
     d = sh["dim"]
     real_t = util.DT[sh["dtype"]]
     eps = util.eps(real_t)
@@ -403,6 +412,8 @@ def run_history(rec, rng, sh, hidx, length):
     specs = [pool["bodies"][int(i)] for i in rng.integers(0, len(pool["bodies"]), nb)]
     if hidx < len(pool["bodies"]):
         specs[0] = pool["bodies"][hidx]  # every configuration is visited by every shard
+    if force is not None:
+        specs[0] = pool["bodies"][force]
     uscale = float(rng.choice([1e-2, 1.0, 1.0, 1e2]))
     u = _gen_u(rng, shape, d, real_t, uscale)
     f = np.zeros((d, *shape), real_t) if rng.random() < 0.5 else util.field(rng, (d, *shape), "noise", real_t)
@@ -421,11 +432,26 @@ def run_history(rec, rng, sh, hidx, length):
             cc = 0.0
         reset = bool(rng.random() < 0.4)
         t0 = float(rng.choice([0.0, rng.uniform(-1, 5)]))
+        ckw = dict(eul_grid_forcing_field=f, eul_grid_velocity_field=u, virtual_boundary_stiffness_coeff=kc, virtual_boundary_damping_coeff=cc,
+                   dx=real_t(dx), grid_dim=d, real_t=real_t, forcing_grid_cls=b.grid_cls, enable_eul_grid_forcing_reset=reset, num_threads=2, start_time=t0)
+        api = int(rng.integers(0, 3))
+        if api == 1:
+            # documented defaults left out wherever they coincide with the requested configuration
+            # (real_t=np.float64, enable_eul_grid_forcing_reset=False, num_threads=False [reset kernel only], start_time=0.0)
+            del ckw["num_threads"]
+            if not reset:
+                del ckw["enable_eul_grid_forcing_reset"]
+            if t0 == 0.0:
+                del ckw["start_time"]
+            if real_t is np.float64:
+                del ckw["real_t"]
+            rec.count("ctor_with_defaults_left_out")
+        elif api == 2:
+            # the two optional geometry arguments given explicitly with their documented default values
+            ckw.update(eul_grid_coord_shift=real_t(dx / 2), interp_kernel_width=2)
+            rec.count("ctor_with_explicit_shift_and_width")
         try:
-            it = b.ctor(**{b.body_kw: b.body}, eul_grid_forcing_field=f, eul_grid_velocity_field=u,
-                        virtual_boundary_stiffness_coeff=kc, virtual_boundary_damping_coeff=cc, dx=real_t(dx), grid_dim=d,
-                        real_t=real_t, forcing_grid_cls=b.grid_cls, enable_eul_grid_forcing_reset=reset, num_threads=2,
-                        start_time=t0, **b.grid_kw)
+            it = b.ctor(**{b.body_kw: b.body}, **ckw, **b.grid_kw)
         except Exception as e:
             rec.violation("ctor-raises", f"{type(e).__name__}: {e} {meta}", {"meta": meta, "spec": s})
             rec.case(None)
@@ -613,9 +639,20 @@ def run_shard(sh, rec):
     tier, seed = sh["tier"], sh["seed"]
     rng = util.rng_for(seed, ID, sh["name"])
     nh = N_HIST[tier]
+    # the (dx, N) body of each pool whose marker count also occurs in the OTHER pool of the same dimension (2-D: 12 markers)
+    same_n = {2: {0: 0, 1: 2}, 3: {0: 0, 1: 0}}[sh["dim"]]
+    other = dict(sh, pool=1 - sh["pool"])
     for h in range(nh):
         length = int(rng.integers(5, 61))
-        run_history(rec, rng, sh, h, length)
+        if nh - 3 <= h < nh - 1:
+            # sibling objects: interactions on the OTHER dx of this dimension in the same process (2-D: same marker count)
+            rec.count("histories_other_dx_same_process")
+            run_history(rec, rng, other, h, length, force=same_n[other["pool"]])
+        elif h == nh - 1:
+            rec.count("histories_own_dx_after_other_dx")
+            run_history(rec, rng, sh, h, length, force=same_n[sh["pool"]])
+        else:
+            run_history(rec, rng, sh, h, length)
 
 
 N_HIST = {"quick": 19, "thorough": 375}  # 16 x 19 = 304 and 32 x 375 = 12000 histories (~0.29 CPU-s each)
